@@ -32,6 +32,10 @@ def _density(x, mu=2.5, sigma=1.0):
     return np.exp(-0.5 * ((x - mu) / sigma) ** 2) / np.sqrt(2.0 * np.pi * sigma ** 2)
 
 
+def _scaled_density(x, mu=2.5, sigma=1.0, n=25.0):
+    return n * np.exp(-0.5 * ((x - mu) / sigma) ** 2) / np.sqrt(2.0 * np.pi * sigma ** 2)
+
+
 def build(obj_id):
     from kafe2 import HistContainer, IndexedContainer, UnbinnedContainer, XYContainer
     from kafe2.core.constraint import GaussianMatrixParameterConstraint, GaussianSimpleParameterConstraint
@@ -89,6 +93,14 @@ def build(obj_id):
         m = HistParametricModel(5, (0.0, 5.0), _density, [2.4, 1.1])
         m.add_error(0.02, name="ma")
         return m
+    if obj_id == "m_hist_nodensity":
+        m = HistParametricModel(5, (0.0, 5.0), _density, [2.4, 1.1], density=False)
+        return m
+    if obj_id == "f_hist_nodensity":
+        from kafe2 import HistFit
+        f = HistFit(fl.make_data("hist", "d0"), _scaled_density, density=False)
+        f.add_error(0.5, name="own")
+        return f
     if obj_id == "k_simple":
         return GaussianSimpleParameterConstraint(1, 2.0, 0.3)
     if obj_id == "k_simple_rel":
@@ -119,7 +131,7 @@ def build(obj_id):
     raise ValueError(obj_id)
 
 
-OBJECTS = ["c_indexed", "c_xy", "c_hist", "c_hist_manual", "c_hist_edges", "c_unbinned", "m_indexed", "m_xy", "m_hist",
+OBJECTS = ["c_indexed", "c_xy", "c_hist", "c_hist_manual", "c_hist_edges", "c_unbinned", "m_indexed", "m_xy", "m_hist", "m_hist_nodensity", "f_hist_nodensity",
            "k_simple", "k_simple_rel", "k_matrix", "k_matrix_rel_cor",
            "f_xy_plain", "f_xy_fit", "f_xy_fixedfit", "f_xy_asym", "f_indexed_fixed", "f_indexed_fit", "f_hist_fit", "f_hist_plain", "f_unbinned_fit"]
 
@@ -172,6 +184,9 @@ def project(obj, obj_id):
             p["n_entries"] = float(obj.n_entries)
         if fam == "model":
             p["parameters"] = _arr(obj.parameters)
+            if hasattr(obj, "density"):
+                p["density"] = bool(obj.density)
+                p["bin_evaluation"] = str(obj.bin_evaluation_string)
     elif fam == "constraint":
         pt = np.array([1.7, 2.6, 0.4])
         p["extra_ndf"] = obj.extra_ndf
@@ -189,6 +204,8 @@ def project(obj, obj_id):
         p["did_fit"] = bool(obj.did_fit)
         p["total_cov"] = _arr(obj.total_cov_mat)
         p["model"] = _arr(obj.y_model if ftype == "xy" else obj.model)
+        if hasattr(obj, "density"):
+            p["density"] = bool(obj.density)
         p["constraint_cost"] = float(sum(c.cost(obj.parameter_values) for c in obj.parameter_constraints))
         p["parameter_errors"] = _arr(obj.parameter_errors) if obj.did_fit else None
         p["parameter_cov_mat"] = _arr(obj.parameter_cov_mat) if obj.did_fit else None
@@ -204,8 +221,8 @@ def diff(p, q, rtol=1e-9):
         a, b = p[k], q.get(k)
         if isinstance(a, np.ndarray) or isinstance(b, np.ndarray):
             if a is None or b is None:
-                if k == "asymmetric":
-                    continue            # lazily computed optional field: compared only when present on both sides
+                if k == "asymmetric" and a is None:
+                    continue            # lazily computed optional field: may appear, but what was stored must not get lost
                 return "%s: %r vs %r" % (k, a, b)
             if a.shape != b.shape or not np.allclose(a, b, rtol=rtol, atol=1e-12, equal_nan=True):
                 return "%s: %s vs %s" % (k, np.array2string(a.ravel()[:8], precision=8), np.array2string(b.ravel()[:8], precision=8))
